@@ -380,11 +380,14 @@ Fixpoint run1 (c : cfg) (fuel : nat) (th : nat) (w : world) (t : thread) : outco
 
 Definition world_of (o : outcome) : world := match o with Finished w | OutOfFuel w => w end.
 
-(* fuel that suffices: see TrampolineFacts.run1_terminates *)
+(* fuel that suffices (a potential that every micro-step of a single thread decreases):
+   16 per schedule call (build, enqueue, at most one wait cycle of the drain loop, dequeue,
+   invoke, return, exit of the loop), 2 per raise (raise, catch), 1 otherwise *)
 Fixpoint csize (cm : cmd) : nat :=
   match cm with
-  | CSched _ _ _ b => 12 + list_sum (map csize b)
+  | CSched _ _ _ b => 16 + list_sum (map csize b)
   | CEnsure _ _ b => 16 + list_sum (map csize b)
+  | CRaise _ => 2
   | _ => 1
   end.
 Definition bsize (b : list cmd) : nat := list_sum (map csize b).
